@@ -63,7 +63,7 @@ let ref_id c s =
 (* spec node for a reference: None = base;  raises Not_found for rejected refs *)
 let ref_node c s : nat option =
   if s = "base" then None
-  else if s = "prev" then (match c.srefs with [] -> None | k :: _ -> if k < 0 then raise Not_found else Some (nat_of_int k))
+  else if s = "prev" then (match List.filter (fun k -> k >= 0) c.srefs with [] -> None | k :: _ -> Some (nat_of_int k))
   else (let k = nth_rev c.srefs (int_of_string s) in if k < 0 then raise Not_found else Some (nat_of_int k))
 let fext t : float sV list option =
   let _ = str t in let n = integer t in
@@ -315,6 +315,17 @@ let run_line c (l : string) seq =
          else begin
            let (((w, qdd), _), _) = forward_dynamics_lagrangian fo m m.ws q qd tau fe in
            setw c w; line "o" seq "qdd" (fun () -> match qdd with Some x -> ovec x | None -> os "singular") end);
+        (* property residuals on the model side: the acceleration the model returns, put into the L3 inverse dynamics,
+           reproduces tau; and the energy balance holds along it *)
+        (if cmd = "fd" then spec_try (fun () ->
+          let (_, qddm) = forward_dynamics fo c.m c.m.ws q qd tau (zeros n_qd) fe in
+          let tn = spec_tau c m.gravity q qd qddm fe in
+          let res = List.fold_left2 (fun a x y -> max a (abs_float (x -. y))) 0. tn tau in
+          let sc = List.fold_left (fun a x -> max a (abs_float x)) 0. (tau @ tn) in
+          line "c" seq "fd_inverts_id" (fun () -> od res; od sc);
+          let (de, pext) = energy_rate fo c.sp.snodes c.sp.ssph c.sp.sndof m.gravity q qd qddm (spec_fext c fe) in
+          let pq = List.fold_left2 (fun a x y -> a +. x *. y) 0. qd tau in
+          line "c" seq "power_balance" (fun () -> od (de -. pq -. pext); od (abs_float de +. abs_float pq +. abs_float pext))));
         spec_try (fun () ->
           let h = spec_H c q in let nv = spec_tau c m.gravity q qd (zeros n_qd) fe in
           line "i" seq "cond" (fun () -> od (cond_est h));
@@ -363,6 +374,87 @@ let run_line c (l : string) seq =
         let (w, e) = calc_potential_energy fo m m.ws q flag in
         setw c w; line "o" seq "pe" (fun () -> od e);
         if flag then spec_try (fun () -> let wb = whole_body fo c.sp.snodes c.sp.ssph c.sp.sndof m.gravity q (zeros n_qd) (zeros n_qd) in line "s" seq "pe" (fun () -> od wb.wb_pe))
+      | "updboth" ->
+        let q = vec t in let qd = vec t in let qdd = vec t in
+        let w1 = update_kinematics fo m m.ws q qd qdd in
+        let m2 = scramble (set_ws m w1) 3 in
+        let w2 = update_kinematics_custom fo m2 m2.ws (Some q) (Some qd) (Some qdd) in
+        setw c w2;
+        let tl = function [] -> [] | _ :: x -> x in
+        let d = ref 0. in
+        let upd a b = d := max !d (abs_float (a -. b)) in
+        List.iter2 (fun a b -> upd a.s0 b.s0; upd a.s1 b.s1; upd a.s2 b.s2; upd a.s3 b.s3; upd a.s4 b.s4; upd a.s5 b.s5) (tl w1.wv) (tl w2.wv);
+        List.iter2 (fun a b -> upd a.s0 b.s0; upd a.s1 b.s1; upd a.s2 b.s2; upd a.s3 b.s3; upd a.s4 b.s4; upd a.s5 b.s5) (tl w1.wa) (tl w2.wa);
+        List.iter2 (fun a b -> upd a.str.vx b.str.vx; upd a.str.vy b.str.vy; upd a.str.vz b.str.vz;
+                     upd a.stE.m00 b.stE.m00; upd a.stE.m01 b.stE.m01; upd a.stE.m02 b.stE.m02; upd a.stE.m10 b.stE.m10; upd a.stE.m11 b.stE.m11;
+                     upd a.stE.m12 b.stE.m12; upd a.stE.m20 b.stE.m20; upd a.stE.m21 b.stE.m21; upd a.stE.m22 b.stE.m22) (tl w1.wXb) (tl w2.wXb);
+        line "o" seq "updiff" (fun () -> od !d)
+      | "ltl" ->
+        let q = vec t in let b = vec t in
+        let nn = nat_of_int n_qd in
+        let (w, h) = crba fo m m.ws q (gzero n_qd nn) true in
+        setw c w;
+        let l = sparse_factorize_ltl fo m.lambda_q nn h in
+        line "o" seq "LtL" (fun () -> omat (mmmul fo (mTn fo l nn) l nn));
+        let x = sparse_solve_lx fo m.lambda_q nn l (sparse_solve_ltx fo m.lambda_q nn l b) in
+        line "o" seq "ltlsolve" (fun () -> ovec x);
+        spec_try (fun () -> let hs = spec_H c q in
+          line "s" seq "LtL" (fun () -> omat hs);
+          line "i" seq "cond" (fun () -> od (cond_est hs));
+          match solve_pp fo hs b with Some x -> line "s" seq "ltlsolve" (fun () -> ovec x) | None -> ())
+      | "hprops" ->
+        let q = vec t in let qd = vec t in
+        let nn = nat_of_int n_qd in
+        let (w, h) = crba fo m m.ws q (gzero n_qd nn) true in
+        let asym = ref 0. in
+        List.iteri (fun i r -> List.iteri (fun j x -> asym := max !asym (abs_float (x -. List.nth (List.nth h j) i))) r) h;
+        line "o" seq "Hasym" (fun () -> od !asym);
+        let hq = mvmul fo h qd in
+        line "o" seq "halfqHq" (fun () -> od (0.5 *. List.fold_left2 (fun a x y -> a +. x *. y) 0. qd hq));
+        let (w, e) = calc_kinetic_energy fo (set_ws m w) w q qd true in
+        setw c w; line "o" seq "ke" (fun () -> od e);
+        spec_try (fun () -> let wb = whole_body fo c.sp.snodes c.sp.ssph c.sp.sndof m.gravity q qd (zeros n_qd) in
+          line "s" seq "Hasym" (fun () -> od 0.); line "s" seq "halfqHq" (fun () -> od wb.wb_ke); line "s" seq "ke" (fun () -> od wb.wb_ke))
+      | "join" | "separate" ->
+        let e = m3 t in let r = v3 t in
+        let ma = num t in let ca = v3 t in let ia = m3 t in let mb = num t in let cb = v3 t in let ib = m3 t in
+        let a = { bmass = ma; bcom = ca; binertia = ia; bvirtual = false } and b = { bmass = mb; bcom = cb; binertia = ib; bvirtual = false } in
+        let x = { stE = e; str = r } in
+        (match (if cmd = "join" then body_join else body_separate) fo a x b with
+         | Some rb -> line "o" seq cmd (fun () -> od rb.bmass; ov3 rb.bcom; om3 rb.binertia)
+         | None -> line "o" seq cmd (fun () -> os "throw"));
+        let ((ms, cm), im) = spec_union fo (cmd = "separate") ma ca ia x mb cb ib in
+        if ms <> 0. && not (mb = 0. && ib = m3zero fo) then line "s" seq cmd (fun () -> od ms; ov3 cm; om3 im)
+      | "l1" ->
+        let op = str t in
+        let st () = let e = m3 t in let r = v3 t in { stE = e; str = r } in
+        let q4 () = let a = num t in let b = num t in let cc = num t in let d = num t in { qx = a; qy = b; qz = cc; qw = d } in
+        let oq q = od q.qx; od q.qy; od q.qz; od q.qw in
+        let rbi () = let ms = num t in let cm = v3 t in let ic = m3 t in rbi_from_mci fo ms cm ic in
+        line "o" seq ("l1_" ^ op) (fun () ->
+          match op with
+          | "apply" -> let x = st () in osv (st_apply fo x (sv t))
+          | "applyT" -> let x = st () in osv (st_applyT fo x (sv t))
+          | "applyAdj" -> let x = st () in osv (st_applyAdj fo x (sv t))
+          | "inv" -> ost (st_inv fo (st ()))
+          | "mul" -> let x = st () in let y = st () in ost (st_mul fo x y)
+          | "tomat" -> ovec (m66list (st_toMatrix fo (st ())))
+          | "tomatadj" -> ovec (m66list (st_toMatrixAdjoint fo (st ())))
+          | "tomatT" -> ovec (m66list (st_toMatrixTranspose fo (st ())))
+          | "rbiapply" -> let x = st () in ovec (m66list (rbi_toMatrix fo (st_apply_rbi fo x (rbi ()))))
+          | "rbiapplyT" -> let x = st () in ovec (m66list (rbi_toMatrix fo (st_applyT_rbi fo x (rbi ()))))
+          | "rbimat" -> let _ = st () in ovec (m66list (rbi_toMatrix fo (rbi ())))
+          | "rbimulv" -> let i = rbi () in osv (rbi_mulv fo i (sv t))
+          | "crossm" -> let a = sv t in osv (crossm fo a (sv t))
+          | "crossf" -> let a = sv t in osv (crossf fo a (sv t))
+          | "qmul" -> let a = q4 () in oq (qmul fo a (q4 ()))
+          | "qtomat" -> om3 (qtoMatrix fo (q4 ()))
+          | "qfrommat" -> oq (qfromMatrix fo (m3 t))
+          | "qrot" -> let a = q4 () in ov3 (qrotate fo a (v3 t))
+          | "qomega" -> let a = q4 () in oq (qomegaToQDot fo a (v3 t))
+          | "xrot" -> let ang = num t in ost (xrot fo ang (v3 t))
+          | "gauss" -> let n = integer t in let a = List.init n (fun _ -> List.init n (fun _ -> num t)) in let b = vec t in ovec (gauss_elim_pivot fo a b)
+          | _ -> os "unknown-op")
       | _ -> if not (!ext_cmd c cmd t seq) then line "o" seq "unknown" (fun () -> os cmd)
     with Failure _ | Invalid_argument _ | Not_found -> line "o" seq "status" (fun () -> os "exception")
   end
